@@ -352,8 +352,16 @@ func GenSeed(t *rapid.T, idx int, site Site, st Settings) (SeedPlan, map[string]
 			// the chain leads into the host's endless redirect trap: only --max-redirect ends it
 			end = fmt.Sprintf("http://%s/trap%d/n1", b.host, b.pick("trapform", 3))
 			b.feat["redirect-trap"] = true
-		case 0, 1, 2:
+		case 0, 1:
 			end = b.page()
+		case 2:
+			// the chain ends on the site's root page (http://host -> https://host/ -> ...): a redirect target without a
+			// path is a page like any other - only an *embedded* reference to a bare origin is dropped as a false positive
+			end = "http://" + b.host + "/"
+			if site[end] == nil {
+				site[end] = &Res{Kind: "html", Assets: []string{b.leaf()}}
+			}
+			b.feat["redirect-to-site-root"] = true
 		case 3:
 			end = "LOOP"
 			b.feat["redirect-loop"] = true
